@@ -1067,3 +1067,27 @@ class FlowDeps(Deps):
         self.reaches(ast.Name(id='<ret>', ctx=ast.Load()),
                      lambda x: seen.append(x) and False)
         return seen
+
+
+def arg_for_param(call, callee, pname):
+    """The argument expression a call binds to the callee's parameter
+    ``pname`` (positional or keyword; self/cls of methods skipped)."""
+    kw = kwarg(call, pname)
+    if kw is not None:
+        return kw
+    ps = list(callee.params)
+    if callee.cls is not None and ps and ps[0] in ('self', 'cls') and \
+            isinstance(call.func, ast.Attribute):
+        ps = ps[1:]
+    if pname in ps and ps.index(pname) < len(call.args):
+        return call.args[ps.index(pname)]
+    return None
+
+
+def _in_handler(node, stop):
+    cur = getattr(node, '_parent', None)
+    while cur is not None and cur is not stop:
+        if isinstance(cur, ast.ExceptHandler):
+            return True
+        cur = getattr(cur, '_parent', None)
+    return False
